@@ -251,6 +251,8 @@ pub struct ExploreCfg {
     pub keep_log: bool,
     /// stop pushing new work once this returns true (wall cap)
     pub deadline: Option<std::time::Instant>,
+    /// count every departure from the default choice against the bound (not only preemptions)
+    pub count_all_deviations: bool,
 }
 
 impl Default for ExploreCfg {
@@ -265,6 +267,7 @@ impl Default for ExploreCfg {
             max_steps: 400_000,
             keep_log: false,
             deadline: None,
+            count_all_deviations: false,
         }
     }
 }
@@ -543,7 +546,7 @@ impl<'a, O: Send, C: Fn(&Exec<O>) + Sync> WorkSource<O> for ExploreSrc<'a, O, C>
         let mut kids: Vec<WorkItem> = vec![];
         for i in w.prefix.len()..x.points.len() {
             let p = &x.points[i];
-            let c = w.cost + if p.current_enabled { 1 } else { 0 };
+            let c = w.cost + if p.current_enabled || self.cfg.count_all_deviations { 1 } else { 0 };
             if c <= self.cfg.bound {
                 for alt in 1..p.enabled.len() {
                     let mut pre = x.choices[..i].to_vec();
